@@ -103,6 +103,9 @@ class AffineEvaluator:
         self.garbage = garbage
         self.quad = quad
         self.info = info
+        # True: the evaluator goes by the per-realization summary `context.active` (it skips a realization altogether when that says
+        # so, whatever the per-function matrices say) - the documented coarse way of using the activity information
+        self.use_summary = False
         self.calls: list[dict[str, Any]] = []
         self.hook: Callable[[int, NDArray[np.float64], EvaluatorContext], None] | None = None
 
@@ -130,15 +133,16 @@ class AffineEvaluator:
             occurrence = seen.get((r, p), 0)  # j-th row of this call with label (r, p): the j-th vector of a batch
             seen[(r, p)] = occurrence + 1
             x = variables[i]
+            skipped = self.use_summary and context.active is not None and not bool(context.active[r])
             for k in range(k_n):
-                active = context.active_objectives is None or bool(context.active_objectives[k, r])
+                active = (context.active_objectives is None or bool(context.active_objectives[k, r])) and not skipped
                 if active or self.garbage is None:
                     obj[i, k] = self.value("obj", r, k, x)
                 else:
                     obj[i, k] = self.garbage(call, i, "obj", k) if callable(self.garbage) else self.garbage
             for c in range(c_n):
                 assert con is not None
-                active = context.active_constraints is None or bool(context.active_constraints[c, r])
+                active = (context.active_constraints is None or bool(context.active_constraints[c, r])) and not skipped
                 if active or self.garbage is None:
                     con[i, c] = self.value("con", r, c, x)
                 else:
